@@ -53,6 +53,12 @@ def _attempt(rng, ctor, driver, levels, perm, fault, item_idx, union_ok=False):
     ops = [{"op": "construct", "ctor": ctor, "perm": perm, "item": item_idx}] + _driver_ops(driver, levels)
     if ctor == "dicts" and union_ok and rng.random() < 0.25:
         ops[0]["union"] = True
+    if driver == "iter" and levels >= 2 and rng.random() < 0.15:
+        # the first levels stepped by hand, the remaining ones taken from resolve_iter() (the generator yields the
+        # remaining levels correctly; only exhausting it is left out: it would run past the last level)
+        done = rng.randint(1, levels - 1)
+        ops = ops[:1] + [{"op": "resolve"} for _ in range(done)] + [{"op": "iter_open"}] + \
+            [{"op": "iter_next", "after_manual": done} for _ in range(levels - done)]
     if fault is None:
         return ops + [{"op": "drop"}]
     if fault == "abort":
